@@ -427,6 +427,24 @@ fn group_c(cat: &mut Catalogue, tier: Tier) {
         let i = cat.add(Item::Enum(e));
         cat.root(p(Ty::Item(i)), "C1", "unit enum + validate");
     }
+    // wide enums: more variants than any small-table shortcut holds
+    {
+        let mut e = unit_enum(3, Some(RenameAll::Lower), false);
+        e.variants = (0..40)
+            .map(|i| VariantSpec { ident: format!("Var{}{}", (b'A' + (i / 26) as u8) as char, (b'a' + (i % 26) as u8) as char), rename: None, rename_all: None, fields: None })
+            .collect();
+        let i = cat.add(Item::Enum(e.clone()));
+        cat.root(p(Ty::Item(i)), "C1", "unit enum, 40 variants, lowercase");
+        let mut t = tagged_enum("kind");
+        t.deny = Deny::Default;
+        for v in e.variants.iter().take(20) {
+            let mut v = v.clone();
+            v.fields = Some(vec![FieldSpec::plain("fa_x", pu8())]);
+            t.variants.push(v);
+        }
+        let i = cat.add(Item::Enum(t));
+        cat.root(p(Ty::Item(i)), "C2", "tagged enum, 23 variants");
+    }
     // C2: internally tagged enums
     for ra in [None, Some(RenameAll::Camel), Some(RenameAll::Lower)] {
         for vra in [None, Some(RenameAll::Camel), Some(RenameAll::Lower)] {
